@@ -38,8 +38,8 @@ def norm(a):
 
 
 @st.composite
-def sig1(draw, twod=False):
-    N = draw(st.integers(1, 24 if twod else 65))
+def sig1(draw, twod=False, nmax=None):
+    N = draw(st.integers(1, nmax or (24 if twod else 65)))
     batch = tuple(draw(st.sampled_from([(), (), (1,), (3,), (2, 2), (3, 2)])))
     shape = batch + ((N, N) if twod else (N,))
     kind = draw(st.sampled_from(["complex", "real", "float32", "int", "impulse"]))
@@ -235,6 +235,8 @@ def self_test():
 
 
 LAWS = [
+    given_law("dft1_xl", sig1(False, 400), body_1d, {"quick": 0, "thorough": 150}, shards={"quick": 1, "thorough": 16}),
+    given_law("dft2_xl", sig1(True, 64), body_2d, {"quick": 0, "thorough": 60}, shards={"quick": 1, "thorough": 16}),
     given_law("dft1", sig1(False), body_1d, {"quick": 600, "thorough": 10000}, shards={"quick": 3, "thorough": 16}),
     given_law("dft2", sig1(True), body_2d, {"quick": 400, "thorough": 6250}, shards={"quick": 3, "thorough": 16}),
     given_law("gaussian", gauss_cases(), gauss_body, {"quick": 300, "thorough": 3750}, shards={"quick": 3, "thorough": 16}),
